@@ -31,6 +31,9 @@ def gen_env(rng: Rng):
         "list_mode": rng.pick(LIST_MODES),
         "straggler": rng.pick(STRAGGLER),
         "sched_seed": rng.randrange(2 ** 32),
+        # the interpreter's warning filters are part of the environment: RuntimeWarnings escalated to
+        # errors (python -W error::RuntimeWarning) during the library's save()/load() calls
+        "warn": rng.fork("warn").pick([None] * 9 + ["runtime"]),
     }
 
 
@@ -160,13 +163,22 @@ class SerEnv:
         sc["seams"] = io.trace_seams
         return res, exc, sc
 
+    def _with_env_warnings(self, fn, armed=None):
+        if self.env.get("warn") == "runtime" and not getattr(self, "warnings_as_errors", None):
+            self.warnings_as_errors = [RuntimeWarning]
+            try:
+                return self.call(fn, armed)
+            finally:
+                self.warnings_as_errors = None
+        return self.call(fn, armed)
+
     def save(self, obj, path, armed=None, **kw):
-        return self.call(lambda: obj.save(path, **kw), armed)
+        return self._with_env_warnings(lambda: obj.save(path, **kw), armed)
 
     def load(self, path, skip=()):
         from quantem.core.io.serialize import load
 
-        return self.call(lambda: load(path, skip=skip) if skip != () else load(path))
+        return self._with_env_warnings(lambda: load(path, skip=skip) if skip != () else load(path))
 
     def load_copy(self, path, skip=()):
         """Oracle load that cannot perturb the target (load() of a directory may create
